@@ -118,3 +118,35 @@ def handler_block(prop="C20"):
     c.raises("only_with_dbg_off_and_then_the_original_exception", lambda v0, exc, v1: z3.And(z3.Not(dbg(v0)), z3.BoolVal(exc == "e")))
     c.allowed_raises = {"e"}
     return c
+
+
+def diagnostic_obligations(prop="C20"):
+    """the per-file handler reports a rejected file through ford.console.warn, and the message echoes source text and the file path.  rich treats `[...]` in what it prints
+    as markup: an unmatched closing tag raises MarkupError *inside the except block* (the run aborts instead of going on), a `[word]` is swallowed (the file is not named).
+    warn() must therefore pass the message through rich.markup.escape - and nothing else of the message may be interpolated unescaped."""
+    import ast
+    from harness import loader
+    from harness.core import OR, PROVED, REFUTED, UNKNOWN
+    oid = f"{prop}.S.console.warn.message_is_escaped"
+    try:
+        fn = loader.find_def("ford.console", "warn")
+    except Exception as e:
+        return [OR(id=oid, status=UNKNOWN, kind="S", target="ford.console.warn", detail=str(e))]
+    arg = fn.args.args[0].arg if fn.args.args else None
+    prints = [c for c in ast.walk(fn) if isinstance(c, ast.Call) and isinstance(c.func, ast.Attribute) and c.func.attr == "print"]
+    if len(prints) != 1 or arg is None:
+        return [OR(id=oid, status=UNKNOWN, kind="S", target="ford.console.warn", detail=f"expected one console.print call in warn(msg), found {len(prints)}")]
+    # every use of the message inside the printed expression is the argument of escape(...)
+    uses = [n for n in ast.walk(prints[0]) if isinstance(n, ast.Name) and n.id == arg]
+    escaped = [n for c in ast.walk(prints[0]) if isinstance(c, ast.Call) and ast.unparse(c.func) in ("escape", "rich.markup.escape", "markup.escape") for n in ast.walk(c)
+               if isinstance(n, ast.Name) and n.id == arg]
+    markup_off = any(k.arg == "markup" and isinstance(k.value, ast.Constant) and k.value.value is False for k in prints[0].keywords)
+    ok = bool(uses) and (markup_off or all(any(u is e for e in escaped) for u in uses))
+    r = OR(id=oid, status=PROVED if ok else REFUTED, kind="S", role="pre", backend="ast", target="ford.console.warn",
+           desc=f"`{ast.unparse(prints[0])[:90]}`: the message reaches rich only through escape() (or with markup switched off)")
+    if not ok:
+        from bounded import c20
+        r.witness = {"print": ast.unparse(prints[0])}
+        r.detail = "brackets in a rejected file's echoed line or path are parsed as console markup"
+        r.replay = c20.markup_cases()
+    return [r]
